@@ -756,6 +756,7 @@ impl Scenario for C01Cycles {
         // strict and non-strict loading may legitimately build different models from one text (C06)
         let strict = cx.tape.chance(1, 2) && entry != 1 && entry != 4;
         let mut feats = Features::default();
+        let mut version_lie = false;
         // a built-in A2ML specification (the a2ml_spec argument) used for every load of this history: the document
         // then has no A2ML block of its own and its IF_DATA follows the built-in definition
         let builtin_def = if entry != 3 && cx.tape.chance(1, 5) { Some(crate::a2mlgen::gen_a2ml(&mut cx.tape)) } else { None };
@@ -817,12 +818,21 @@ impl Scenario for C01Cycles {
                     }
                     let mut g = DocGen::new(&mut cx.tape, opts);
                     g.a2ml_variant = builtin_def.clone();
+                    if !strict && g.t.chance(1, 10) {
+                        // the header declares another version than the content was written for: non-strict loading
+                        // accepts that with diagnostics, and what was accepted must save and reload
+                        g.declared = Some(*g.t.pick(&crate::gen::VERSIONS));
+                        version_lie = g.declared != Some(g.version);
+                    }
                     let nodes = g.document();
                     let f1 = g.feats.clone();
                     let r = render_nodes(&mut cx.tape, &nodes, &lo, 0);
                     (r.text, merge_feats(&f1, &r.feats))
                 };
                 feats = f;
+                if version_lie {
+                    cx.probe("declared-version-differs-from-content");
+                }
                 cx.event_lazy(if entry == 2 { "entry: load(/work/t0.a2l)" } else { "entry: load_from_string" }, || crate::runner::clip(&text, 3000));
                 let res = if entry == 2 {
                     fs.put("/work/t0.a2l", text.as_bytes());
